@@ -288,7 +288,7 @@ pub fn property() -> Property {
             name: "builder",
             rule: "1-5 builder calls (with_template/template over all 28 documented keys with grammar-conforming specs, tick_chars, tick_strings, progress_chars with 0..6 clusters of width 0/1/2 mixed, with_key) each under catch_unwind; documented rejections must panic at build; an accepted style is drawn (tick, inc, println, finish/abandon, drop) for pos/len extremes, 1..200 columns, virtual elapsed up to 49 days, and get_tick_str for ticks up to u64::MAX; non-trivial = a non-default tick/progress table was accepted",
             strategy: |_| case_strategy(),
-            cases: |t| t.pick(12_000, 600_000),
+            cases: |t| t.pick(12_000, 2_400_000),
             run: run_style,
             signature: no_signature,
             essential: &["builder_rejected", "documented_rejection", "custom_table_accepted", "rendered", "template_error"],
